@@ -36,7 +36,9 @@ TRIPLES = {"unix64": "x86_64-linux-gnu", "unix32": "i686-linux-gnu", "win64": "x
            "win32W": "i686-pc-windows-msvc", "avr8": "avr", "msp430_eabi_large_datamodel": "msp430", "arm32-wchar_t4": "armv7-linux-gnueabihf",
            "riscv32": "riscv32-unknown-elf", "riscv64": "riscv64-unknown-elf", "mips32": "mips-linux-gnu", "aix_ppc64": "powerpc64-ibm-aix"}
 CAUSE_KEY = {1: "rank-only-conversion-equal-width", 2: "unsigned-promotion-equal-width", 3: "c-comparison-typed-bool",
-             4: "c-conditional-small-type-unpromoted", 5: "conditional-same-rank-takes-first-operand"}
+             4: "c-conditional-small-type-unpromoted", 5: "conditional-same-rank-takes-first-operand",
+             6: "incdec-small-type-typed-int"}
+UNARY = [(0, "-a"), (0, "~a"), (1, "a++"), (1, "--a")]   # the tokenizer removes a unary plus
 
 
 def ctype_of_dump(t, s):
@@ -113,6 +115,7 @@ def check(run, replay):
                 continue
             for cpp in (False, True):
                 typed_expressions(run, model, wd, pname, cpp, ops)
+            unary_expressions(run, model, wd, pname)
             literals(run, model, wd, byname[pname], rng, quick)
     finally:
         shutil.rmtree(wd, ignore_errors=True)
@@ -211,6 +214,62 @@ def typed_expressions(run, model, wd, pname, cpp, ops):
                           % (text, CT[a], CT[b], pname, ext, impl[1], impl[0], CT[want] if want is not None else "?"),
                           dict(where, cppcheck_type="%s %s" % (impl[1], impl[0]), language_type=CT[want] if want is not None else None, cause=cause,
                                oracle="clang -target %s" % TRIPLES.get(pname, "(none)")))
+
+
+def unary_expressions(run, model, wd, pname):
+    """`-a ~a +a a++ --a` for the 12 operand types in a C file: operator token's valueType vs result_type1, and the
+    language's type (promoted type / operand type) on the result"""
+    cases = [(k, e, a) for k, e in UNARY for a in range(12)]
+    path = os.path.join(wd, "u_%s.c" % pname.replace("-", "_"))
+    with open(path, "w") as f:
+        for i, (k, e, a) in enumerate(cases):
+            f.write("void f%d(%s a) { long long v = %s ; }\n" % (i, CT[a], e))
+    rc, out = G.run_cppcheck(vlib.CPPCHECK, path, platform=pname)
+    try:
+        toks, vals = G.parse_dump(path + ".dump")[0]
+    except Exception as e:
+        run.violation("dump:unary:" + pname, "no dump for %s: %s" % (pname, e), {"broken": "dump", "platform": pname}, found_input=False)
+        return
+    byid = {t["id"]: t for t in toks}
+    got = {}
+    for t in toks:
+        if t["str"] == "=" and t.get("astOperand2"):
+            r = byid[t["astOperand2"]]
+            got[int(t["linenr"]) - 1] = (r, byid.get(r.get("astOperand1")))
+    ml, sl = [], []
+    for i, (k, e, a) in enumerate(cases):
+        r, o1 = got.get(i, (None, None))
+        t1, s1 = ((o1 or {}).get("valueType-type", "") or "", (o1 or {}).get("valueType-sign", "") or "")
+        ml.append(vlib.enc_case([b"rt1", t1.encode(), s1.encode()]))
+        sl.append(vlib.enc_case([b"spec1", pname.encode(), str(k).encode(), str(a).encode()]))
+    rc, mo, me = vlib.run_lines([model], ml)
+    rc, so, se = vlib.run_lines([model], sl)
+    for i, (k, e, a) in enumerate(cases):
+        r, o1 = got.get(i, (None, None))
+        if r is None or "valueType-type" not in r:
+            run.count("setValueType:unary", None, bucket="%s,untyped" % pname)
+            continue
+        impl = (r.get("valueType-type", ""), r.get("valueType-sign", "") or "")
+        m = vlib.dec_line(mo[i])
+        mod = (m[0].decode(), m[1].decode()) if len(m) == 2 else ("?", "?")
+        where = {"platform": pname, "expression": e, "a": CT[a],
+                 "how": "echo 'void f(%s a) { long long v = %s ; }' > t.c && %s --dump -q --platform=%s t.c  # valueType of the operator token" % (CT[a], e, vlib.CPPCHECK, pname)}
+        run.count("setValueType:unary", None, nontrivial=(pname, e, a), bucket="%s,%s" % (pname, "ok" if mod == impl else "diff"))
+        s = vlib.dec_line(so[i])
+        want = int(s[0]) if s and s[0].isdigit() else None
+        cause = int(s[1]) if len(s) > 1 and s[1].isdigit() else 9
+        have = ctype_of_dump(impl[0], impl[1] or None)
+        if mod != impl:
+            run.violation(("spec:unary:%s:%s:%d" if have != want else "model:unary:%s:%s:%d") % (pname, e, a),
+                          "`%s` with a: %s on %s: cppcheck types the operator %s %s, the model says %s %s, the language says %s"
+                          % (e, CT[a], pname, impl[1], impl[0], mod[1], mod[0], CT[want] if want is not None else "?"),
+                          dict(where, impl=impl, model=mod), found_input=(have != want))
+            continue
+        run.count("spec-on-dump:unary", None, nontrivial=(pname, e, a), bucket="%s,%s" % (pname, "ok" if have == want else "cause%d" % cause))
+        if have != want:
+            run.violation(CAUSE_KEY.get(cause, "spec:unary:%s:%s:%d" % (pname, e, a)),
+                          "`%s` with a: %s on %s (.c): cppcheck says %s %s, the language says %s" % (e, CT[a], pname, impl[1], impl[0], CT[want] if want is not None else "?"),
+                          dict(where, cppcheck_type="%s %s" % (impl[1], impl[0]), language_type=CT[want] if want is not None else None, cause=cause))
 
 
 def lit_parts(s):
